@@ -61,6 +61,18 @@ class ConsumerClient(Client):
         self.w.stats["intent:herald_variant"] += 1
         return self.queued()
 
+    def seed(self):
+        """Sampling seeds: mostly arbitrary, sometimes the boundary values."""
+        r = self.rng
+        x = r.random()
+        if x < 0.12:
+            return 0
+        if x < 0.18:
+            return 1
+        if x < 0.22:
+            return 2 ** 32 - 1
+        return r.randrange(1 << 30)
+
     def sample_size(self):
         r = self.rng
         if self.cfg.get("big_n"):
@@ -150,8 +162,11 @@ class ConsumerClient(Client):
                 if any(m in x[0] for x in rules):
                     continue
                 rules.append([[m], sorted(set(r.sample([0, 1, 2], r.randint(1, 2))))])
-            return {"op": "new_postsel", "kind": "rules", "rules": rules,
-                    "out": out}
+            o = {"op": "new_postsel", "kind": "rules", "rules": rules,
+                 "out": out}
+            if r.random() < 0.35:
+                o["multi"] = True
+            return o
         return {"op": "new_postsel", "kind": "pred",
                 "pred": r.choice(sorted(PREDICATES)), "out": out}
 
@@ -227,7 +242,7 @@ class SamplerUser(ConsumerClient):
         if k in ("sample_n", "sample_o"):
             o = {"op": "sample_n_inputs" if k == "sample_n" else "sample_n_outputs",
                  "s": sid, "n": self.sample_size(),
-                 "seed": r.randrange(1 << 30)}
+                 "seed": self.seed()}
             ps = self.pick_postsel()
             if ps is not None:
                 o["ps"] = ps
@@ -410,7 +425,7 @@ class QuickUser(ConsumerClient):
             return o
         if k == "sample_o":
             o = {"op": "quick_n_outputs", "s": sid,
-                 "n": self.sample_size(), "seed": r.randrange(1 << 30)}
+                 "n": self.sample_size(), "seed": self.seed()}
             if cfg.get("big_n") and r.random() < 0.5:
                 o["twice"] = self.perturbation()
             return o
@@ -448,6 +463,11 @@ class QuickUser(ConsumerClient):
             ps = w.pool["ps"][ref]
             n = s.circuit.input_modes
             free = [m for m in range(n) if m not in ps.modes]
+            if ps.multi_rules and n:
+                # several rules per mode are allowed: mostly pile onto a mode
+                # that already has one
+                occ = [m for m in ps.modes if m < n]
+                free = occ if occ and r.random() < 0.7 else list(range(n))
             if not free:
                 return None
             return {"op": "ps_add", "ps": ref, "modes": [r.choice(free)],
